@@ -586,8 +586,11 @@ def unlock(u):
     def algo(seed):
         return seed[::-1]          # the key is the seed reversed (the model's algorithm flavour 1)
 
-    def run(level, params, d1, d2):
-        c = uc.Client(Conn(), config={'security_algo': algo})
+    def run(level, params, d1, d2, lenient=False):
+        cfg = {'security_algo': algo}
+        if lenient:
+            cfg.update({'exception_on_negative_response': False, 'exception_on_invalid_response': False, 'exception_on_unexpected_response': False})
+        c = uc.Client(Conn(), config=cfg)
         sent = []
         replies = [st.SymSeq([0x67]) + d1, st.SymSeq([0x67]) + d2]
 
@@ -598,8 +601,9 @@ def unlock(u):
             return Response.from_payload(replies[len(sent) - 1])
         c.send_request = sr
         try:
-            c.unlock_security_access(level, params)
-            code = 0
+            r = c.unlock_security_access(level, params)
+            # with the switches off the flagged response is handed back instead of raised: same code as the exception would give
+            code = 0 if r is None else (7 if r.unexpected else (6 if not r.valid else 0))
         except ValueError:
             code = 1
         except NotImplementedError:
@@ -609,7 +613,77 @@ def unlock(u):
         except UnexpectedResponseException:
             code = 7
         return [code, len(sent)] + [('bytes', p) for p in sent]
-    return [dict(name='fn_unlock', params=[('level', 'Z'), ('params', 'Y'), ('d1', ('seqx', 4, 1)), ('d2', ('seq', 2, 1))], result='S', call=run)]
+    P = [('level', 'Z'), ('params', 'Y'), ('d1', ('seqx', 4, 1)), ('d2', ('seq', 2, 1))]
+    return [dict(name='fn_unlock', params=P, result='S', call=run),
+            dict(name='fn_unlock_lenient', params=P, result='S', call=lambda *a: run(*a, lenient=True))]
+
+
+def client_state(u):
+    """what a call leaves behind in the client: the session timing after change_session (C10), the formats of the caller's MemoryLocation after
+    the configured server formats were applied (C14)"""
+    import symtrans as st
+    request, interpret = client_env(u)
+    import udsoncan.client as uc
+    from udsoncan import Response, MemoryLocation
+    from udsoncan.exceptions import InvalidResponseException, UnexpectedResponseException, NegativeResponseException
+    from udsoncan.connections import BaseConnection
+
+    class Conn(BaseConnection):
+        def open(self): return self
+        def close(self): pass
+        def is_open(self): return True
+        def empty_rxqueue(self): pass
+        def specific_send(self, payload): raise st.Refuse('the connection was used')
+        def specific_wait_frame(self, timeout=2): raise st.Refuse('the connection was used')
+
+    def timing_after(cfg):
+        def f(s, d):
+            c = uc.Client(Conn(), config=dict(cfg))
+
+            def sr(req, timeout=-1):
+                return Response.from_payload(st.SymSeq([0x50]) + d)
+            c.send_request = sr
+            try:
+                c.change_session(s)
+            except (ValueError, InvalidResponseException, UnexpectedResponseException):
+                pass
+            return [micro(c.session_timing.p2_server_max), micro(c.session_timing.p2_star_server_max)]
+        return f
+
+    def formats_after(method):
+        import udsoncan.services as services
+        svc = {'read': services.ReadMemoryByAddress, 'write': services.WriteMemoryByAddress, 'download': services.RequestDownload}[method]
+
+        def f(a, s, af, sf, ca, cs):
+            c = uc.Client(Conn(), config={'server_address_format': ca, 'server_memorysize_format': cs})
+            ml = MemoryLocation(a, s, af, sf)
+            saved = svc.__dict__['make_request']
+
+            def stop(*args, **kw):
+                raise st.Sent(b'')        # the formats have been applied by now; building the request is translated elsewhere
+            svc.make_request = stop
+            try:
+                if method == 'read':
+                    c.read_memory_by_address(ml)
+                elif method == 'write':
+                    c.write_memory_by_address(ml, b'\x00')
+                else:
+                    c.request_download(ml)
+            except st.Sent:
+                pass
+            finally:
+                svc.make_request = saved
+            return (ml.address_format, ml.memorysize_format, ml.alfid.address_format, ml.alfid.memorysize_format)
+        return f
+    D6 = ('seq', 6, 1)
+    FP = [('a', 'Z'), ('s', 'Z'), ('af', OZ), ('sf', OZ), ('ca', OZ), ('cs', OZ)]
+    FR = T(OZ, OZ, 'Z', 'Z')
+    return [dict(name='fn_change_session_timing', params=[('s', 'Z'), ('d', D6)], result='S', call=timing_after({})),
+            dict(name='fn_change_session_timing_2006', params=[('s', 'Z'), ('d', D6)], result='S', call=timing_after({'standard_version': 2006})),
+            dict(name='fn_change_session_timing_unused', params=[('s', 'Z'), ('d', D6)], result='S', call=timing_after({'use_server_timing': False})),
+            dict(name='fn_client_formats_read', params=FP, result=FR, call=formats_after('read')),
+            dict(name='fn_client_formats_write', params=FP, result=FR, call=formats_after('write')),
+            dict(name='fn_client_formats_download', params=FP, result=FR, call=formats_after('download'))]
 
 
 def pick(names):
@@ -626,6 +700,10 @@ def files(u):
             ('Fn_Codecs.v', 'udsoncan/common/CommunicationType.py, DataFormatIdentifier.py, AddressAndLengthFormatIdentifier.py, Baudrate.py',
              pick(['fn_alfid_byte', 'fn_commtype_byte', 'fn_commtype_from_byte', 'fn_dfi_byte', 'fn_dfi_from_byte', 'fn_baud', 'fn_baud_bytes', 'fn_baud_effective'])),
             ('Fn_Filesize.v', 'udsoncan/common/Filesize.py', pick(['fn_filesize_width'])),
+            ('Fn_Timing.v', 'udsoncan/client.py (change_session: what it leaves in session_timing)',
+             lambda u: [sp for sp in client_state(u) if 'timing' in sp['name']]),
+            ('Fn_ClientFormats.v', 'udsoncan/client.py (read_memory_by_address, write_memory_by_address, request_download: the configured server formats applied to the caller\'s MemoryLocation)',
+             lambda u: [sp for sp in client_state(u) if 'formats' in sp['name']]),
             ('Fn_Unlock.v', 'udsoncan/client.py (unlock_security_access, request_seed, send_key; send_request replaced by two scripted replies)', unlock),
             ('Fn_SendRequest.v', 'udsoncan/client.py (send_request, on a symbolic clock)',
              lambda u: [sp for sp in send_request(u) if not any(k in sp['name'] for k in CTX_KINDS)]),
